@@ -5,7 +5,8 @@ SPEC = {
     'claimed': False,
     'theorems': [
         'C14_del_after_add_obs_id_partial', 'C14_del_after_add_refuted', 'C14_queries_invariant',
-        'C14_del_after_add_queries_partial', 'C14_hyps_satisfiable', 'C14_del_total_without_mvcc',
+        'C14_del_after_add_queries_partial', 'C14_index_entries_exact', 'C14_addr_counts_restored',
+        'C14_hyps_satisfiable', 'C14_del_total_without_mvcc',
     ],
     'allowed_axioms': [],
     'shard': 25,
@@ -62,7 +63,8 @@ SPEC = {
                       'which no modelled query can see; hence every query answer is restored) under the guard that no coins '
                       'transaction with a local effect failed; refuted without the guard (known finding 1: failed coins '
                       'transfers stay in the receiver total), reproduced on the node. The Go code agrees with the model on '
-                      'every dump of every generated run',
+                      'every dump of every generated run. Without the guard: every index entry proper and every address '
+                      'counter is still restored exactly (proved); only the coins receiver total is affected',
         'level_note': 'KV level with tagged values (protobuf not modelled); tx/addr/hash fields are inputs; LocalDB cache by '
                       'its Get semantics; exec-level mvcc driven directly because it cannot run on a node on this tree; '
                       'manage Apply/Approve tables not modelled',
